@@ -67,8 +67,10 @@ func H_C13_queries() {
 	q1 := verif.Choose("q1", len(c13Queries))
 	q2 := verif.Choose("q2", len(c13Queries))
 	// the two threads are symmetric: unordered pairs; the queries with their
-	// own goroutines are paired with the plain filter and with themselves
-	if q2 > q1 || (q1 >= 4 && q2 != 0 && (q2 != q1 || verif.Tier() == 0)) {
+	// own goroutines are paired with the plain filter and (thorough tier,
+	// except the nested ASYNC subquery whose self-pair has >10^6 schedules)
+	// with themselves
+	if q2 > q1 || (q1 >= 4 && q2 != 0 && (q2 != q1 || verif.Tier() == 0 || q1 == 7)) {
 		verif.Assume(false)
 	}
 	RegisterFunction("vid", idFunc)
